@@ -59,6 +59,7 @@ fn in_flight_exact_one_call() {
         return;
     }
     assert!(matches!(rdy, Poll::Ready(Ok(()))), "[C13.ready_below_limit] readiness is never refused while fewer than limit calls are in flight (inner ready)");
+    assert!(s.in_flight() == others, "[C13.ready_reserves_nothing] reporting readiness does not count as a call in flight (a Ready that is never followed by a call leaks nothing)");
     let req: u32 = kani::any();
     let mut fut = Some(s.call(req));
     assert!(s.in_flight() == others + 1, "[C13.counts_on_call] a call counts as in flight from call()");
@@ -94,5 +95,17 @@ fn in_flight_exact_one_call() {
     }
     kani::cover!(done.is_none() && mon().dropped_unfinished == 1, "dropped while running");
     kani::cover!(matches!(done, Some(Ok(_))), "completed ok");
+    std::mem::forget(s);
+}
+
+/// C20 readiness clause for the adaptive limiter below its limit: see svc::check_readiness_passthrough.
+#[kani::proof]
+#[kani::unwind(4)]
+#[kani::stub(std::time::Instant::now, tokio::model::std_instant_now)]
+fn readiness_passthrough_below_limit() {
+    let alg = Arc::new(FixedAlg { limit: 3, succ: Default::default(), fail: Default::default() });
+    let mut s = AdaptiveService::new(Inner::new(svc::any_script()), Arc::clone(&alg));
+    svc::check_readiness_passthrough(&mut s);
+    assert!(s.in_flight() == 0, "[C13.ready_reserves_nothing] a refused or failed readiness poll counts nothing as in flight");
     std::mem::forget(s);
 }
